@@ -1490,3 +1490,21 @@ def pd_from_records(ex, st, args, kwargs, node):
         field(0, 0)       # width check now
     cols = {c: (lambda k, i=i: field(k, i)) for i, c in enumerate(names)}
     return st.alloc(Tab(n, cols, RangeIdx(n)))
+
+
+@vm("replace")
+def v_replace(ex, st, o, args, kwargs, node):
+    """Series.replace(old, new) with scalar old/new: elementwise substitution"""
+    v = st.get(o)
+    if len(args) != 2 or kwargs:
+        raise Unsupported("Series.replace signature")
+    a, b = st.get(args[0]), st.get(args[1])
+    if isinstance(a, (Vec, ListV, DictV)) or isinstance(b, (Vec, ListV, DictV)):
+        raise Unsupported("Series.replace with non-scalar arguments")
+
+    def at(k):
+        x = v.at(k)
+        if isinstance(x, NF):
+            raise Unsupported("Series.replace on a nullable column")
+        return merge_val(_b(scalar_compare(ex, st, "Eq", x, a)), b, x)
+    return st.alloc(Vec(v.n, at, idx=v.idx, elt=v.elt, kind="series"))
